@@ -3,6 +3,7 @@ package load
 
 import (
 	"fmt"
+	"go/ast"
 	"go/token"
 	"go/types"
 	"os"
@@ -31,6 +32,8 @@ type Program struct {
 	Cmds  []*packages.Package
 	Env   []string
 	Flags []string
+	// CSSOrig: package css as written (before helpers were inlined), for the AST-level handler interpreter.
+	CSSOrig *packages.Package
 	// NormLog: what the normaliser inlined or declined to inline; Overlay: the normalised sources (nil if unchanged).
 	NormLog []string
 	Overlay map[string][]byte
@@ -121,6 +124,44 @@ func IsMemberSig(sig *types.Signature) bool {
 	return a == "string" && b == "[]string" || a == "[]string" && b == "string"
 }
 
+// callsOwnPackage: the body of f calls a function declared in f's own package (such a helper is a composition, not a
+// primitive membership test, and is inlined like any other helper).
+func callsOwnPackage(pkgs []*packages.Package, f *types.Func) bool {
+	for _, p := range pkgs {
+		if p.Types != f.Pkg() {
+			continue
+		}
+		for _, file := range p.Syntax {
+			for _, d := range file.Decls {
+				fd, ok := d.(*ast.FuncDecl)
+				if !ok || p.TypesInfo.Defs[fd.Name] != types.Object(f) || fd.Body == nil {
+					continue
+				}
+				found := false
+				ast.Inspect(fd.Body, func(n ast.Node) bool {
+					if c, ok := n.(*ast.CallExpr); ok {
+						var id *ast.Ident
+						switch x := ast.Unparen(c.Fun).(type) {
+						case *ast.Ident:
+							id = x
+						case *ast.SelectorExpr:
+							id = x.Sel
+						}
+						if id != nil {
+							if callee, ok := p.TypesInfo.Uses[id].(*types.Func); ok && callee.Pkg() == f.Pkg() {
+								found = true
+							}
+						}
+					}
+					return !found
+				})
+				return found
+			}
+		}
+	}
+	return false
+}
+
 func loadPkgs(cfg Config, mode packages.LoadMode, overlay map[string][]byte) ([]*packages.Package, *packages.Config, error) {
 	pc := &packages.Config{
 		Mode:    mode,
@@ -154,12 +195,12 @@ func loadPkgs(cfg Config, mode packages.LoadMode, overlay map[string][]byte) ([]
 
 // normalise computes the inlining overlay (see package norm).  Failures never fail the load: a site that cannot be
 // inlined is simply left as a call.
-func normalise(cfg Config) (map[string][]byte, []string) {
+func normalise(cfg Config) (map[string][]byte, []string, *packages.Package) {
 	var log []string
 	cheap := packages.NeedName | packages.NeedFiles | packages.NeedCompiledGoFiles | packages.NeedImports | packages.NeedTypes | packages.NeedSyntax | packages.NeedTypesInfo | packages.NeedTypesSizes
 	pkgs, _, err := loadPkgs(cfg, cheap, nil)
 	if err != nil {
-		return nil, []string{"normaliser: initial load failed: " + err.Error()}
+		return nil, []string{"normaliser: initial load failed: " + err.Error()}, nil
 	}
 	lib := func(ps []*packages.Package) []*packages.Package {
 		var out []*packages.Package
@@ -175,7 +216,7 @@ func normalise(cfg Config) (map[string][]byte, []string) {
 		for _, f := range p.CompiledGoFiles {
 			b, err := os.ReadFile(f)
 			if err != nil {
-				return nil, []string{"normaliser: " + err.Error()}
+				return nil, []string{"normaliser: " + err.Error()}, nil
 			}
 			src[f] = b
 		}
@@ -189,7 +230,7 @@ func normalise(cfg Config) (map[string][]byte, []string) {
 		}
 		// membership helpers of the css package — f(string, []string) bool in either order — are kept as calls: the
 		// handler-language rules model them as leaf acceptors once their body has been checked (C18.R8)
-		return f.Pkg().Path() == ModPath+"/css" && IsMemberSig(f.Type().(*types.Signature))
+		return f.Pkg().Path() == ModPath+"/css" && IsMemberSig(f.Type().(*types.Signature)) && !callsOwnPackage(lib(pkgs), f)
 	}
 	counter := 0
 	changed := false
@@ -203,6 +244,13 @@ func normalise(cfg Config) (map[string][]byte, []string) {
 			} else {
 				log = append(log, "normaliser: renaming anchors back did not type-check ("+err.Error()+"); names left as written")
 			}
+		}
+	}
+	// the css package as written (anchors renamed back, nothing inlined): the handler-language interpreter reads it
+	var cssOrig *packages.Package
+	for _, p := range pkgs {
+		if p.PkgPath == ModPath+"/css" {
+			cssOrig = p
 		}
 	}
 	for round := 1; round <= 6; round++ {
@@ -262,9 +310,9 @@ func normalise(cfg Config) (map[string][]byte, []string) {
 		src, pkgs, changed = newSrc, np, true
 	}
 	if !changed {
-		return nil, log
+		return nil, log, cssOrig
 	}
-	return src, log
+	return src, log, cssOrig
 }
 
 // Load loads the module at cfg.Repo. Any load or type error is returned as an error
@@ -272,8 +320,9 @@ func normalise(cfg Config) (map[string][]byte, []string) {
 func Load(cfg Config) (*Program, error) {
 	var overlay map[string][]byte
 	var normLog []string
+	var cssOrig *packages.Package
 	if !cfg.NoNorm {
-		overlay, normLog = normalise(cfg)
+		overlay, normLog, cssOrig = normalise(cfg)
 	}
 	pkgs, pc, err := loadPkgs(cfg, packages.LoadAllSyntax, overlay)
 	if err != nil && overlay != nil {
@@ -304,6 +353,10 @@ func Load(cfg Config) (*Program, error) {
 		return nil, fmt.Errorf("expected >=4 module packages (bluemonday, css, 2 cmds), got %d", len(P.Pkgs))
 	}
 	P.Fset = P.Main.Fset
+	P.CSSOrig = cssOrig
+	if P.CSSOrig == nil {
+		P.CSSOrig = P.CSS
+	}
 	packages.Visit(pkgs, nil, func(p *packages.Package) { P.All = append(P.All, p) })
 	if !cfg.NoSSA {
 		prog, spkgs := ssautil.AllPackages(pkgs, ssa.InstantiateGenerics)
